@@ -219,7 +219,7 @@ impl Ctx {
     pub fn budget_s(&self) -> f64 {
         let env = std::env::var("VERIF_BUDGET_S").ok().and_then(|s| s.parse::<f64>().ok());
         env.unwrap_or(match self.tier {
-            Tier::Quick => 150.0,
+            Tier::Quick => 300.0,
             Tier::Thorough => 1500.0,
         })
     }
